@@ -266,14 +266,16 @@ def extract_from_template(
                 )
                 _comments.clear()
 
+        # A node's own message comes before the messages in its expressions,
+        # as it does in the source text: a translator comment in front of a
+        # translate tag belongs to the tag, not to a filter in its arguments.
+        for expr in node.expressions():
+            yield from visit_expression(expr, _line_number(expr.token))
+
         for child in node.children(ctx, include_partials=False):
-            for expr in child.expressions():
-                yield from visit_expression(expr, _line_number(expr.token))
             yield from visit(child)
 
     for node in template.nodes:
-        for expr in node.expressions():
-            yield from visit_expression(expr, _line_number(expr.token))
         yield from visit(node)
 
 
